@@ -48,3 +48,145 @@ package generic
 //@     invariant nextSymbol == chr(seq(sc(scanner).content), sc(scanner).position)
 //@     invariant spans(builder(tokenValue), scanner, old(cur(scanner)), min(sc(scanner).position, len(sc(scanner).content)))
 //@     decreases len(sc(scanner).content) - sc(scanner).position
+
+// ---- word, whitespace and single-line comment states: one read-ahead loop each (C04, C12, C13) ------------
+// every character of the token belongs to the class, and the token is maximal (the next character does not)
+//@ pred allIn(m *utilities.CharReferenceMap, s io.IScanner, k0 int, k1 int) =
+//@     forall i int :: k0 <= i && i < k1 ==> view(m, sc(s).content[i]) != nil
+//
+//@ func (c *GenericWordState) NextToken
+//@   requires c != nil && mapInv(c.mp) && isScanner(scanner) && sc(scanner).position + 1 < len(sc(scanner).content)
+//@   requires forall i int :: 0 <= i && i < len(sc(scanner).content) ==> scalar(sc(scanner).content[i])
+//@   ensures[C04,C12] result != nil && isScanner(scanner) && sc(scanner).content == old(sc(scanner).content)
+//@   ensures[C04] spans(result.value, scanner, old(cur(scanner)), cur(scanner))
+//@   ensures[C12] result.line == L(seq(sc(scanner).content), old(cur(scanner))) && result.column == C(seq(sc(scanner).content), old(cur(scanner)))
+//@   ensures[C13] result.typ == tokenizers.Word && allIn(c.mp, scanner, old(cur(scanner)) + 1, cur(scanner))
+//@   ensures[C13] cur(scanner) == len(sc(scanner).content) || view(c.mp, sc(scanner).content[cur(scanner)]) == nil
+//@   assigns sc(scanner).position, sc(scanner).line, sc(scanner).column
+//@   nopanic
+//@   loop 0
+//@     invariant isScanner(scanner) && sc(scanner).content == old(sc(scanner).content) && mapInv(c.mp)
+//@     invariant old(sc(scanner).position) + 1 <= sc(scanner).position && sc(scanner).position <= len(sc(scanner).content)
+//@     invariant nextSymbol == chr(seq(sc(scanner).content), sc(scanner).position)
+//@     invariant spans(builder(tokenValue), scanner, old(cur(scanner)), sc(scanner).position)
+//@     invariant allIn(c.mp, scanner, old(cur(scanner)), sc(scanner).position)
+//@     invariant line == L(seq(sc(scanner).content), old(cur(scanner))) && column == C(seq(sc(scanner).content), old(cur(scanner)))
+//@     decreases len(sc(scanner).content) - sc(scanner).position
+//
+//@ func (c *GenericWhitespaceState) NextToken
+//@   requires c != nil && mapInv(c.mp) && isScanner(scanner) && sc(scanner).position + 1 < len(sc(scanner).content)
+//@   requires forall i int :: 0 <= i && i < len(sc(scanner).content) ==> scalar(sc(scanner).content[i])
+//@   ensures[C04,C12] result != nil && isScanner(scanner) && sc(scanner).content == old(sc(scanner).content)
+//@   ensures[C04] spans(result.value, scanner, old(cur(scanner)), cur(scanner))
+//@   ensures[C12] result.line == L(seq(sc(scanner).content), old(cur(scanner))) && result.column == C(seq(sc(scanner).content), old(cur(scanner)))
+//@   ensures[C13] result.typ == tokenizers.Whitespace && allIn(c.mp, scanner, old(cur(scanner)), cur(scanner))
+//@   ensures[C13] cur(scanner) == len(sc(scanner).content) || view(c.mp, sc(scanner).content[cur(scanner)]) == nil
+//@   assigns sc(scanner).position, sc(scanner).line, sc(scanner).column
+//@   nopanic
+//@   loop 0
+//@     invariant isScanner(scanner) && sc(scanner).content == old(sc(scanner).content) && mapInv(c.mp)
+//@     invariant old(sc(scanner).position) + 1 <= sc(scanner).position && sc(scanner).position <= len(sc(scanner).content)
+//@     invariant nextSymbol == chr(seq(sc(scanner).content), sc(scanner).position)
+//@     invariant spans(builder(tokenValue), scanner, old(cur(scanner)), sc(scanner).position)
+//@     invariant allIn(c.mp, scanner, old(cur(scanner)), sc(scanner).position)
+//@     invariant line == L(seq(sc(scanner).content), old(cur(scanner))) && column == C(seq(sc(scanner).content), old(cur(scanner)))
+//@     decreases len(sc(scanner).content) - sc(scanner).position
+//
+// a comment runs to the end of the line (the line break is not part of it)
+//@ func (c *GenericCommentState) NextToken
+//@   requires c != nil && isScanner(scanner) && sc(scanner).position + 1 < len(sc(scanner).content)
+//@   requires forall i int :: 0 <= i && i < len(sc(scanner).content) ==> scalar(sc(scanner).content[i])
+//@   ensures[C04,C12] result != nil && isScanner(scanner) && sc(scanner).content == old(sc(scanner).content)
+//@   ensures[C04] spans(result.value, scanner, old(cur(scanner)), cur(scanner))
+//@   ensures[C12] result.line == L(seq(sc(scanner).content), old(cur(scanner))) && result.column == C(seq(sc(scanner).content), old(cur(scanner)))
+//@   ensures[C13] result.typ == tokenizers.Comment
+//@   ensures[C13] cur(scanner) == len(sc(scanner).content) || iseol(sc(scanner).content[cur(scanner)])
+//@   ensures[C13] forall i int :: old(cur(scanner)) <= i && i < cur(scanner) ==> !iseol(sc(scanner).content[i])
+//@   assigns sc(scanner).position, sc(scanner).line, sc(scanner).column
+//@   nopanic
+//@   loop 0
+//@     invariant isScanner(scanner) && sc(scanner).content == old(sc(scanner).content)
+//@     invariant old(sc(scanner).position) + 1 <= sc(scanner).position && sc(scanner).position <= len(sc(scanner).content)
+//@     invariant nextSymbol == chr(seq(sc(scanner).content), sc(scanner).position)
+//@     invariant spans(builder(tokenValue), scanner, old(cur(scanner)), sc(scanner).position)
+//@     invariant forall i int :: old(cur(scanner)) <= i && i < sc(scanner).position ==> !iseol(sc(scanner).content[i])
+//@     invariant line == L(seq(sc(scanner).content), old(cur(scanner))) && column == C(seq(sc(scanner).content), old(cur(scanner)))
+//@     decreases len(sc(scanner).content) - sc(scanner).position
+
+// ---- number state (C04, C12, C13): -?digits(.digits)? with at least one digit, else the symbol state ----
+//@ func (c *GenericNumberState) NextToken
+//@   requires c != nil && isScanner(scanner) && sc(scanner).position + 1 < len(sc(scanner).content)
+//@   requires forall i int :: 0 <= i && i < len(sc(scanner).content) ==> scalar(sc(scanner).content[i])
+//@   requires tokenizer != nil && symState(tokenizer) != nil
+//@   ensures[C04,C12] result != nil && isScanner(scanner) && sc(scanner).content == old(sc(scanner).content)
+//@   ensures[C04] spans(result.value, scanner, old(cur(scanner)), cur(scanner))
+//@   ensures[C12] result.line == L(seq(sc(scanner).content), old(cur(scanner))) && result.column == C(seq(sc(scanner).content), old(cur(scanner)))
+//@   assigns sc(scanner).position, sc(scanner).line, sc(scanner).column
+//@   nopanic
+//@   loop 0
+//@     invariant isScanner(scanner) && sc(scanner).content == old(sc(scanner).content)
+//@     invariant old(sc(scanner).position) + 1 <= sc(scanner).position && sc(scanner).position <= len(sc(scanner).content)
+//@     invariant nextSymbol == chr(seq(sc(scanner).content), sc(scanner).position)
+//@     invariant spans(builder(tokenValue), scanner, old(cur(scanner)), sc(scanner).position)
+//@     invariant len(builder(tokenValue)) == rlen(builder(tokenValue))
+//@     invariant line == L(seq(sc(scanner).content), old(cur(scanner))) && column == C(seq(sc(scanner).content), old(cur(scanner)))
+//@     decreases len(sc(scanner).content) - sc(scanner).position
+//@   loop 1
+//@     invariant isScanner(scanner) && sc(scanner).content == old(sc(scanner).content)
+//@     invariant old(sc(scanner).position) + 1 <= sc(scanner).position && sc(scanner).position <= len(sc(scanner).content)
+//@     invariant nextSymbol == chr(seq(sc(scanner).content), sc(scanner).position)
+//@     invariant spans(builder(tokenValue), scanner, old(cur(scanner)), sc(scanner).position)
+//@     invariant len(builder(tokenValue)) == rlen(builder(tokenValue))
+//@     invariant line == L(seq(sc(scanner).content), old(cur(scanner))) && column == C(seq(sc(scanner).content), old(cur(scanner)))
+//@     decreases len(sc(scanner).content) - sc(scanner).position
+//
+// ---- C / C++ comment states (C04, C12) ---------------------------------------------------------------
+//@ func (c *CppCommentState) GetMultiLineComment
+//@   requires isScanner(scanner) && (forall i int :: 0 <= i && i < len(sc(scanner).content) ==> scalar(sc(scanner).content[i]))
+//@   ensures[C04] isScanner(scanner) && sc(scanner).content == old(sc(scanner).content)
+//@   ensures[C04] spans(result, scanner, old(cur(scanner)), cur(scanner))
+//@   assigns sc(scanner).position, sc(scanner).line, sc(scanner).column
+//@   nopanic
+//@   loop 0
+//@     invariant isScanner(scanner) && sc(scanner).content == old(sc(scanner).content)
+//@     invariant old(sc(scanner).position) <= sc(scanner).position && sc(scanner).position <= len(sc(scanner).content)
+//@     invariant old(sc(scanner).position) < sc(scanner).position || old(sc(scanner).position) == len(sc(scanner).content)
+//@     invariant nextSymbol == chr(seq(sc(scanner).content), sc(scanner).position)
+//@     invariant spans(builder(result), scanner, old(cur(scanner)), min(sc(scanner).position, len(sc(scanner).content)))
+//@     decreases len(sc(scanner).content) - sc(scanner).position
+//
+//@ func (c *CppCommentState) GetSingleLineComment
+//@   requires isScanner(scanner) && (forall i int :: 0 <= i && i < len(sc(scanner).content) ==> scalar(sc(scanner).content[i]))
+//@   ensures[C04] isScanner(scanner) && sc(scanner).content == old(sc(scanner).content)
+//@   ensures[C04] spans(result, scanner, old(cur(scanner)), cur(scanner))
+//@   assigns sc(scanner).position, sc(scanner).line, sc(scanner).column
+//@   nopanic
+//@   loop 0
+//@     invariant isScanner(scanner) && sc(scanner).content == old(sc(scanner).content)
+//@     invariant old(sc(scanner).position) <= sc(scanner).position && sc(scanner).position <= len(sc(scanner).content)
+//@     invariant old(sc(scanner).position) < sc(scanner).position || old(sc(scanner).position) == len(sc(scanner).content)
+//@     invariant nextSymbol == chr(seq(sc(scanner).content), sc(scanner).position)
+//@     invariant spans(builder(result), scanner, old(cur(scanner)), min(sc(scanner).position, len(sc(scanner).content)))
+//@     decreases len(sc(scanner).content) - sc(scanner).position
+//
+//@ func (c *CppCommentState) NextToken
+//@   requires c != nil && isScanner(scanner) && sc(scanner).position + 1 < len(sc(scanner).content)
+//@   requires forall i int :: 0 <= i && i < len(sc(scanner).content) ==> scalar(sc(scanner).content[i])
+//@   requires tokenizer != nil && symState(tokenizer) != nil
+//@   requires sc(scanner).content[sc(scanner).position + 1] == 47   -- entered on '/' (the dispatch table guarantees it)
+//@   ensures[C04,C12] result != nil && isScanner(scanner) && sc(scanner).content == old(sc(scanner).content)
+//@   ensures[C04] spans(result.value, scanner, old(cur(scanner)), cur(scanner))
+//@   ensures[C12] result.line == L(seq(sc(scanner).content), old(cur(scanner))) && result.column == C(seq(sc(scanner).content), old(cur(scanner)))
+//@   assigns sc(scanner).position, sc(scanner).line, sc(scanner).column
+//@   nopanic
+//
+//@ func (c *CCommentState) NextToken
+//@   requires c != nil && c.CppCommentState != nil && isScanner(scanner) && sc(scanner).position + 1 < len(sc(scanner).content)
+//@   requires forall i int :: 0 <= i && i < len(sc(scanner).content) ==> scalar(sc(scanner).content[i])
+//@   requires tokenizer != nil && symState(tokenizer) != nil
+//@   requires sc(scanner).content[sc(scanner).position + 1] == 47
+//@   ensures[C04,C12] result != nil && isScanner(scanner) && sc(scanner).content == old(sc(scanner).content)
+//@   ensures[C04] spans(result.value, scanner, old(cur(scanner)), cur(scanner))
+//@   ensures[C12] result.line == L(seq(sc(scanner).content), old(cur(scanner))) && result.column == C(seq(sc(scanner).content), old(cur(scanner)))
+//@   assigns sc(scanner).position, sc(scanner).line, sc(scanner).column
+//@   nopanic
